@@ -93,6 +93,36 @@ func genExhaustive(r *lib.RNG, height, maxLen int, hash string) []*TrieCase {
 	return out
 }
 
+// genExhaustiveCommit: every sequence with Commit + reopen after EVERY write (no reads in between on
+// the writing object): all writes after the first go through unresolved nodes.
+func genExhaustiveCommit(height, maxLen int, hash string) []*TrieCase {
+	var alphabet []TOp
+	for k := 0; k < 1<<height; k++ {
+		for _, v := range smallVals {
+			alphabet = append(alphabet, TOp{Op: "put", K: fmt.Sprintf("%x", k), V: v})
+		}
+	}
+	var out []*TrieCase
+	var rec func(prefix []TOp)
+	rec = func(prefix []TOp) {
+		if len(prefix) > 0 {
+			c := &TrieCase{Height: height, Hash: hash}
+			for _, op := range prefix {
+				c.Ops = append(c.Ops, op, TOp{Op: "commit"})
+			}
+			out = append(out, c)
+		}
+		if len(prefix) == maxLen {
+			return
+		}
+		for _, a := range alphabet {
+			rec(append(append([]TOp{}, prefix...), a))
+		}
+	}
+	rec(nil)
+	return out
+}
+
 func randBits(r *lib.RNG, n int) *big.Int {
 	x := new(big.Int)
 	for i := 0; i < n; i++ {
@@ -233,12 +263,11 @@ func checkTrieCases(f lib.Flags, res *lib.Result, drv *lib.Driver, cases []*Trie
 	outs := make([]*trieOutcome, len(cases))
 	parallel(cases, func(i int, c *TrieCase) {
 		o := &trieOutcome{c: c}
-		ok := lib.WithDeadline(deadline(), func() {
-			o.t2 = runTrie2(c)
-			o.lg = runLegacy(c)
-		})
-		if !ok {
-			o.t2.Err = "hang"
+		if !lib.WithDeadline(deadline(), func() { o.t2 = runTrie2(c) }) {
+			o.t2.Err = "hang: core/trie2 did not finish within the deadline"
+		}
+		if !lib.WithDeadline(deadline(), func() { o.lg = runLegacy(c) }) {
+			o.lg.Err = "hang: core/trie did not finish within the deadline"
 		}
 		o.spec, _ = specTrace(c)
 		outs[i] = o
@@ -275,7 +304,7 @@ func checkTrieCases(f lib.Flags, res *lib.Result, drv *lib.Driver, cases []*Trie
 		var err error
 		answers, err = drv.AskAll(all)
 		if err != nil {
-			res.Note("driver: %v", err)
+			res.Fatalf("Lean driver died / answered short in family %s: %v", family, err)
 			res.Mismatch(lib.Mismatch{Sig: "driver-died", Input: family, Model: err.Error()})
 			answers = nil
 		}
@@ -377,6 +406,24 @@ func evalTrieOutcome(res *lib.Result, o *trieOutcome, answers []string, off int,
 	}
 	// trie2 model with node database: roots, and the node set of every Commit
 	boff := off + len(o.lines) + len(o.llines)
+	for i, l := range o.blines {
+		if strings.HasPrefix(l, "bput ") {
+			a := answers[boff+i]
+			if strings.HasPrefix(a, "ok:") {
+				if strings.Contains(a[3:], "i") {
+					res.Hit("lazy:insert-through-unresolved-node")
+				}
+				if strings.Contains(a[3:], "d") {
+					res.Hit("lazy:delete-through-unresolved-node")
+				}
+				if strings.Contains(a[3:], "s") {
+					res.Hit("lazy:collapse-into-unresolved-sibling")
+				}
+			} else if a != "ok" {
+				res.Mismatch(lib.Mismatch{Sig: "trie2-store-model-update", Input: c, Model: clip(a), Impl: "ok"})
+			}
+		}
+	}
 	ci := 0
 	for j, idx := range o.bobs {
 		ans := answers[boff+idx]
@@ -492,7 +539,7 @@ func main() {
 	r := lib.NewRNG(f.Seed)
 	drv, err := lib.StartDriver(f.Driver)
 	if err != nil {
-		res.Note("driver: %v", err)
+		res.Fatalf("Lean driver did not start: %v", err)
 		drv = nil
 	}
 	if drv != nil {
@@ -520,6 +567,8 @@ func main() {
 			checkTrieCases(f, res, drv, genExhaustive(r, 3, f.Scale(2, 3), hk), "exhaustive-h3")
 		}
 	}
+	checkTrieCases(f, res, drv, genExhaustiveCommit(2, f.Scale(3, 4), "ped"), "exhaustive-commit-every-op-h2")
+	checkTrieCases(f, res, drv, genExhaustiveCommit(3, f.Scale(2, 3), "pos"), "exhaustive-commit-every-op-h3")
 	// 2. random histories on heights 2..8
 	var cs []*TrieCase
 	for i := 0; i < f.Scale(1500, 30000); i++ {
@@ -584,13 +633,13 @@ func main() {
 func runReplay(f lib.Flags, res *lib.Result, drv *lib.Driver) {
 	b, err := os.ReadFile(f.Replay)
 	if err != nil {
-		res.Note("replay: %v", err)
+		res.Fatalf("replay: %v", err)
 		return
 	}
 	var rf replayFile
 	var body replayBody
 	if err := json.Unmarshal(b, &rf); err != nil || json.Unmarshal(rf.Replay, &body) != nil {
-		res.Note("replay: cannot parse %s", f.Replay)
+		res.Fatalf("replay: cannot parse %s", f.Replay)
 		return
 	}
 	switch body.Kind {
@@ -599,7 +648,7 @@ func runReplay(f lib.Flags, res *lib.Result, drv *lib.Driver) {
 	case "state":
 		var sc StateCase
 		if err := json.Unmarshal(body.State, &sc); err != nil {
-			res.Note("replay: %v", err)
+			res.Fatalf("replay: %v", err)
 			return
 		}
 		legacyPurgeVariant = legacyPurges()
